@@ -118,15 +118,21 @@ def diff(a, b):
 MEMS = [(), (("v", "u"),), (("v", "u2"),), (("v", "u"), ("v", "u2")), (("w", "u"), ("v", "u")), (("v", "u"), ("w", "u"))]
 
 
-def run(ctx):
+def run_warnings_as_errors(ctx):
+    """a membership call that a warning-turned-error ends must leave I2 intact"""
+    run(ctx, warn=True)
+
+
+def run(ctx, warn=False):
     res = ctx.res
     res.rule_text = ("inductive step for I2 + reference-model equality: abstract pre-states (object class Vertex/SymVert/Universe/self-member x membership pattern over "
                      "two universes and two objects, all lists with opaque segments) x the four membership calls from either side; constructors with repeated elements "
                      "given as list or one-shot iterator; raise => heap unchanged")
     res.trusted_base = common.TRUSTED_AE
     res.assumptions = ["objects do not define __eq__", "arguments are BaseObject/Universe instances"]
-    common.identity_model(ctx)
-    common.own_rule(ctx, ["Universe._vertices", "BaseObject._universes"])
+    if not warn:
+        common.identity_model(ctx)
+        common.own_rule(ctx, ["Universe._vertices", "BaseObject._universes"])
     h = H(ctx.src)
     common.aux_state(h, res)
     I = h.I
@@ -158,6 +164,8 @@ def run(ctx):
                     else:
                         res.undecide(f"{Q[op]} {vcls} alias={alias} mem={mem} on ({orole},{urole}): {u}")
                     continue
+                if warn and not common.warned(out):
+                    continue
                 n += 1
                 model = copy.deepcopy(p.pre)
                 mr = m_add(model, o_eff, urole) if "add" in op else m_remove(model, o_eff, urole)
@@ -166,6 +174,8 @@ def run(ctx):
                 bad = i2_violations(post)
                 if bad:
                     why = "I2 broken: " + "; ".join(bad[:3])
+                elif warn:
+                    why = None
                 elif mr == "raise":
                     if out.kind != "raise":
                         why = "removing a non-member returned normally"
@@ -186,7 +196,9 @@ def run(ctx):
                     res.violation("I2-STEP", Q[op], cls, f"{op} with object {orole} and universe {urole} (memberships {list(mem)}, v is a {vcls}{', v is u' if alias else ''}): {why}",
                                   detail=f"pre {p.pre}\npost {post}\nmodel {model}",
                                   replay=replay(vcls, alias, mem, op, orole, urole))
-    res.rule("I2-STEP", n)
+    res.rule("I2-STEP" + ("/warnings-as-errors" if warn else ""), n)
+    if warn:
+        return
     # ---- constructors
     m = 0
     for form in ("list", "iterator", "tuple"):
